@@ -270,6 +270,14 @@ impl Run {
             e.0 += 1;
             return;
         }
+        if let Some(original) = &self.replay {
+            // replay mode: the artefact already exists, never overwrite recorded artefacts
+            println!("VIOLATION property={} replay={}", self.prop, original.display());
+            println!("  signature: {signature}");
+            println!("  what: {what}");
+            inner.violations_by_sig.insert(signature.to_string(), (1, original.display().to_string()));
+            return;
+        }
         let dir = self.verif_root.join("replays");
         let _ = std::fs::create_dir_all(&dir);
         let n = inner.artefacts_written;
